@@ -30,6 +30,7 @@ THEOREMS = [P + "memo_table", P + "copy_table", P + "array_table", P + "cache_so
             P + "copy_independent", P + "no_mutation_layout_indep", P + "layout_indep",
             P + "reuse_eq_fresh", P + "arg_table", P + "arg_store_sound",
             P + "return_table", P + "returns_fresh", P + "derived_table", P + "reinit_current",
+            P + "getter_table", P + "getter_current",
             "OQuPyVerif.Aliasing.reshapeView_insert_ones", "OQuPyVerif.Aliasing.sim_run",
             "OQuPyVerif.Aliasing.static_run", "OQuPyVerif.Aliasing.inv_step"]
 
@@ -387,6 +388,14 @@ def api_table(rng):
         return [x for x in c.get_single_site_controls(1, False) if x is not None]
     T.append(("ChainControl.add_single_site_control(control)", None, sup, chain_control, {}))
 
+    from oqupy.mps_mpo import compute_nn_gate, compute_trotter_layers
+    liou = 0.3 * generic(rng, (16, 16))
+    T.append(("compute_nn_gate(liouvillian)", ("compute_nn_gate", "liouvillian", 0), liou,
+              lambda a: list(compute_nn_gate(a, 0, 2, 2, 0.1, 1e-9).tensors), {}))
+    T.append(("compute_trotter_layers(nn_full_liouvillians)",
+              ("compute_trotter_layers", "nn_full_liouvillians[*]", 0), liou,
+              lambda a: [t for layer in compute_trotter_layers([a, a], [2, 2, 2], 0.1, 1e-9)
+                         for g in layer.gates for t in g.tensors], {}))
     tt_sys, tt_bath, tt_pt, tt_corr = ttbc_fixture()
 
     def ttbc(method):
@@ -494,8 +503,12 @@ def worst_answer(outs):
 
 
 def parse_tables(line):
-    memo, cop, arr, args, rets, ders = [x.strip() for x in line.split("||")]
-    out = {"memo": [], "copies": [], "arrays": [], "args": [], "returns": [], "derived": []}
+    memo, cop, arr, args, rets, ders, gets = [x.strip() for x in line.split("||")]
+    out = {"memo": [], "copies": [], "arrays": [], "args": [], "returns": [], "derived": [],
+           "getters": []}
+    for tok in gets.split():
+        f = tok.split(":")
+        out["getters"].append({"func": f[0], "attr": f[1], "ok": f[-1] == "ok=true"})
     for tok in ders.split():
         f = tok.split(":")
         out["derived"].append({"func": f[0], "attr": f[1], "guard": f[2], "ok": f[3] == "ok=true"})
@@ -1632,6 +1645,178 @@ def oracle_tebd(what):
 
 
 # ---------------------------------------------------------------------------
+# (viii) system chains used by several computations; controls used on several time grids
+# ---------------------------------------------------------------------------
+
+CHAIN_VARIANTS = ["site terms on every site", "field-free bond (nn terms only)",
+                  "three sites, last bond field-free"]
+
+
+def chain_build(variant):
+    import oqupy
+    from oqupy import operators as op
+    if variant == CHAIN_VARIANTS[0]:
+        ch = oqupy.SystemChain([2, 2])
+        ch.add_site_hamiltonian(0, 0.5 * op.sigma("z"))
+        ch.add_site_hamiltonian(1, 0.3 * op.sigma("x"))
+        ch.add_nn_hamiltonian(0, 0.6 * op.sigma("x"), op.sigma("x"))
+    elif variant == CHAIN_VARIANTS[1]:
+        ch = oqupy.SystemChain([2, 2])
+        ch.add_nn_hamiltonian(0, 0.6 * op.sigma("x"), op.sigma("x"))
+        ch.add_nn_hamiltonian(0, 0.4 * op.sigma("y"), op.sigma("z"))
+        ch.add_nn_dissipation(0, op.sigma("-"), op.sigma("z"), 0.1)
+    else:
+        ch = oqupy.SystemChain([2, 2, 2])
+        ch.add_site_hamiltonian(0, 0.5 * op.sigma("z"))
+        ch.add_nn_hamiltonian(0, 0.6 * op.sigma("x"), op.sigma("x"))
+        ch.add_nn_hamiltonian(1, 0.5 * op.sigma("y"), op.sigma("y"))
+    return ch
+
+
+def chain_snapshot(ch):
+    return [snapshot(a) for a in list(ch._site_liouvillians) + list(ch._nn_liouvillians)] + \
+        [snapshot(np.asarray(a)) for a in list(ch.site_liouvillians) + list(ch.nn_liouvillians)]
+
+
+def chain_run(ch):
+    import oqupy
+    from oqupy import operators as op
+    n = len(ch)
+    mps = oqupy.AugmentedMPS([op.spin_dm("x+")] + [op.spin_dm("z-")] * (n - 1))
+    t = oqupy.PtTebd(initial_augmented_mps=mps, system_chain=ch, process_tensors=[None] * n,
+                     parameters=oqupy.PtTebdParameters(dt=0.2, order=2, epsrel=1e-9),
+                     dynamics_sites=list(range(n)))
+    r = t.compute(end_step=3, progress_type="silent")
+    return [np.array(r["dynamics"][k].states) for k in range(n)]
+
+
+def chain_observe(variant):
+    from oqupy.mps_mpo import compute_tebd_propagator
+    ch = chain_build(variant)
+    snap0 = chain_snapshot(ch)
+    problems = []
+    full = ch.get_nn_full_liouvillians()
+    if any(np.shares_memory(f, st) for f in full for st in ch._nn_liouvillians + ch._site_liouvillians):
+        problems.append("get_nn_full_liouvillians() hands out a stored array")
+    if chain_snapshot(ch) != snap0:
+        problems.append("get_nn_full_liouvillians() changes the stored arrays")
+    compute_tebd_propagator(system_chain=ch, time_step=0.1, epsrel=1e-9, order=1)
+    if chain_snapshot(ch) != snap0:
+        problems.append("compute_tebd_propagator() changes the chain's stored Liouvillians")
+    first = chain_run(ch)
+    second = chain_run(ch)
+    fresh = chain_run(chain_build(variant))
+    dev2 = max(float(np.max(np.abs(a - b))) for a, b in zip(first, second))
+    devf = max(float(np.max(np.abs(a - b))) for a, b in zip(second, fresh))
+    if not dev2 < 1e-10:
+        problems.append("second computation on the same chain differs from the first by %.3e" % dev2)
+    if not devf < 1e-10:
+        problems.append("computation on the re-used chain differs from a fresh chain by %.3e" % devf)
+    if chain_snapshot(ch) != snap0:
+        problems.append("PtTebd computations change the chain's stored Liouvillians")
+    return {"variant": variant, "problems": problems} if problems else None
+
+
+GRID_A = (0.1, 0.0)       # dt, start_time
+GRID_B = (0.05, 0.1)
+
+
+def control_build():
+    import oqupy
+    from oqupy import operators as op
+    c = oqupy.Control(2)
+    c.add_single(0.2, op.left_super(op.sigma("x")))
+    c.add_single(0.35, op.left_super(op.sigma("z")), post=True)
+    c.add_single(0.3, op.left_super(op.sigma("y")))
+    c.add_single(2, op.right_super(op.sigma("x")))
+    return c
+
+
+def control_answers(c, grid, nsteps=8):
+    import contextlib
+    import io
+    out = []
+    for step in range(nsteps):
+        with contextlib.redirect_stdout(io.StringIO()):      # get_controls prints the matching times
+            pre, post = c.get_controls(step, dt=grid[0], start_time=grid[1])
+        out.append((None if pre is None else np.array(pre), None if post is None else np.array(post)))
+    return out
+
+
+def control_dynamics(c, grid):
+    import oqupy
+    from oqupy import operators as op
+    from . import oq
+    import contextlib
+    import io
+    with contextlib.redirect_stdout(io.StringIO()):
+        d = oqupy.compute_dynamics(system=oq.cheap_system(), initial_state=op.spin_dm("z+"), dt=grid[0],
+                                   num_steps=7, start_time=grid[1], control=c, progress_type="silent")
+    return np.array(d.states)
+
+
+def control_observe():
+    def same(a, b):
+        return all((x is None and y is None) or (x is not None and y is not None and np.array_equal(x, y))
+                   for p, q in zip(a, b) for x, y in zip(p, q))
+    problems = []
+    for first, second in ((GRID_A, GRID_B), (GRID_B, GRID_A)):
+        c = control_build()
+        control_answers(c, first)
+        if not same(control_answers(c, second), control_answers(control_build(), second)):
+            problems.append("get_controls on grid dt=%g start=%g after use on dt=%g start=%g differs "
+                            "from a fresh Control" % (second + first))
+        c = control_build()
+        control_dynamics(c, first)
+        dev = float(np.max(np.abs(control_dynamics(c, second) - control_dynamics(control_build(), second))))
+        if not dev < 1e-12:
+            problems.append("compute_dynamics on grid dt=%g start=%g after a run on dt=%g start=%g "
+                            "differs from a fresh Control by %.3e" % (second + first + (dev,)))
+    # adding a control after use must still be honoured
+    c = control_build()
+    control_answers(c, GRID_A)
+    from oqupy import operators as op
+    c.add_single(0.5, op.left_super(op.sigma("y")))
+    f = control_build()
+    f.add_single(0.5, op.left_super(op.sigma("y")))
+    if not same(control_answers(c, GRID_A), control_answers(f, GRID_A)):
+        problems.append("a control added after the first use is not applied like on a fresh Control")
+    return {"problems": problems} if problems else None
+
+
+def reuse_objects_cases(res, tables):
+    """chains and controls: real observations vs the verdict of the generated tables"""
+    chain_sites = [a for a in tables["arrays"] if a["func"].split("#")[0] in
+                   ("SystemChain.get_nn_full_liouvillians", "compute_nn_gate", "compute_trotter_layers")]
+    model_ok = bool(chain_sites) and all(a["safe"] for a in chain_sites)
+    if not chain_sites:
+        res.disagree("no generated array sites for the chain getters / gate builders", {})
+    for v in CHAIN_VARIANTS:
+        try:
+            bad = chain_observe(v)
+        except Exception as e:      # noqa: BLE001
+            bad = {"variant": v, "problems": ["raises " + exc_kind(e)]}
+        res.count("chain-reuse")
+        res.case("chain " + v, True, {"op": "chain " + v, "impl": json.dumps(bad)[:120],
+                                      "model": "sites safe=%s" % model_ok})
+        if bad is not None and model_ok:
+            res.disagree("chain re-use (%s): the array sites pass the static check, the real chain "
+                         "misbehaves" % v, bad)
+    getters_ok = all(g["ok"] for g in tables["getters"])
+    try:
+        bad = control_observe()
+    except Exception as e:      # noqa: BLE001
+        bad = {"problems": ["raises " + exc_kind(e)]}
+    res.count("control-two-grids")
+    res.case("control two grids", True, {"op": "control on two time grids", "impl": json.dumps(bad)[:120],
+                                         "model": "getter stores ok=%s (%d)" % (getters_ok,
+                                                                               len(tables["getters"]))})
+    if bad is not None and getters_ok:
+        res.disagree("Control on a second time grid: no getter keeps argument-dependent state "
+                     "unkeyed, yet the real Control misbehaves", bad)
+
+
+# ---------------------------------------------------------------------------
 # (v) arrays held by process tensors must come out of the getters unchanged
 # ---------------------------------------------------------------------------
 
@@ -1797,6 +1982,10 @@ def replay_case(payload):
         return bad
     if kind == "table":
         return replay_table_history(payload["history"])
+    if kind == "chain":
+        return chain_observe(payload["variant"])
+    if kind == "control":
+        return control_observe()
     if kind == "tebd":
         return replay_tebd(payload["history"])[0]
     if kind == "bath-tempo":
@@ -1983,13 +2172,46 @@ def search(res, rng=None):
                         "c = b.correlations; c.alpha = 0.4; t2 = Tempo(b); both computed to 0.3 "
                         "(dt 0.1, dkmax 3) vs a Tempo on a fresh untouched bath (1e-10)"})
 
-    for sec in (section_4, section_5, section_6, section_7, section_8, section_0, section_1,
-                section_2, section_3):
+    def section_9():
+        # (11) chains used by several computations
+        for v in CHAIN_VARIANTS:
+            try:
+                bad = chain_observe(v)
+            except Exception as e:      # noqa: BLE001
+                bad = {"variant": v, "problems": ["raises " + exc_kind(e)]}
+            res.count("search:chain")
+            if bad is not None:
+                what = ("chain-arrays-changed-by-computation" if any("chang" in p or "hands out" in p
+                                                                      for p in bad["problems"])
+                        else "chain-reuse-differs")
+                add("chain", "%s:SystemChain(%s)" % (what, v),
+                    {"kind": "chain", "variant": v, "observed": bad,
+                     "how": "build the chain, snapshot _site_liouvillians/_nn_liouvillians bytewise, "
+                            "call get_nn_full_liouvillians(), compute_tebd_propagator(), two PtTebd "
+                            "runs (dt 0.2, order 2, 3 steps) on it and one on a freshly built chain"})
+
+    def section_10():
+        # (12) a Control used on two time grids
+        try:
+            bad = control_observe()
+        except Exception as e:      # noqa: BLE001
+            bad = {"problems": ["raises " + exc_kind(e)]}
+        res.count("search:control")
+        if bad is not None:
+            add("control", "control-on-second-grid-differs:Control.get_controls/compute_dynamics",
+                {"kind": "control", "observed": bad,
+                 "how": "Control(2) with float-time controls at 0.2 (pre), 0.3 (pre), 0.35 (post) and a "
+                        "step control at 2; get_controls(step, dt, start_time) for steps 0..7 and "
+                        "compute_dynamics (7 steps) on grid (dt=0.1, start=0) then (dt=0.05, start=0.1) "
+                        "and in the other order, vs a fresh equal Control (exact / 1e-12)"})
+
+    for sec in (section_4, section_5, section_6, section_7, section_8, section_9, section_10,
+                section_0, section_1, section_2, section_3):
         try:
             sec()
         except Exception as e:      # noqa: BLE001
             res.notes.append("search: %s raised %s" % (sec.__name__, exc_kind(e)))
-    order = ["table", "pt", "returned", "tebd", "bath-tempo", "handed-out-object-changes-the-bath", "copy-after-eval-follows-original", "original-follows-copy-after-eval",
+    order = ["table", "pt", "returned", "tebd", "chain", "control", "bath-tempo", "handed-out-object-changes-the-bath", "copy-after-eval-follows-original", "original-follows-copy-after-eval",
              "old-value-after-set", "bath-copy-follows-original", "layout",
              "copy-ignores-own-attribute", "reuse", "history"]
     while any(found.get(k) for k in order):
@@ -2079,6 +2301,7 @@ def correspondence(res, tier, rng):
     for h, line in zip(d_jobs, d_lines):
         judge_tebd(res, h, line, out[pos])
         pos += 1
+    reuse_objects_cases(res, tables)
     bt = oracle_bath_tempo()
     res.count("bath-tempo")
     if bt is not None and all(c["ok"] for c in tables["copies"]):
@@ -2118,7 +2341,10 @@ def run(tier, seed, replay):
         "model's verdict from the generated return table.  PtTebd: histories compute / change "
         "dt, order, epsrel or add a chain term on the shared objects / initialize() / compute on one "
         "PtTebd vs a fresh PtTebd from the current objects (times exact, states 1e-10) vs the model's "
-        "verdict from the derived-store table.  Non-trivial = reshape/shape cases of "
+        "verdict from the derived-store table.  Chains: stored Liouvillians bytewise before/after "
+        "get_nn_full_liouvillians, compute_tebd_propagator and two PtTebd runs (incl. field-free "
+        "bonds), re-used vs fresh chain (1e-10).  Control: get_controls and compute_dynamics on two "
+        "time grids in both orders vs a fresh Control (exact / 1e-12).  Non-trivial = reshape/shape cases of "
         "matching size, API cases, histories with a cache hit or a predicted stale value; distinct "
         "= distinct protocol line.")
     res.assumptions = [
